@@ -4,10 +4,11 @@ CONSTANTS
   Dev = "none"
   NEl = 2
   NSc = 1
-  MaxCalls = 7
+  MaxCalls = 5
   ScalarConsts = {0, 1, 2, 3, 29, 30}
   BaseX = 2
   BaseY = 12
+  DecodeInputs <- DecodeInputsDef
 SPECIFICATION Spec
 INVARIANT AllValid
 INVARIANT ObserversAgree
